@@ -78,6 +78,16 @@ def closedB (T : Table) : Nat → List Bool → Nat → Bool
           closedB T n (gs.map (fun _ => true)) s && closedB T n (gs.map (fun _ => true)) r
         | _, _ => false
 
+/-- no partial type names a field twice (the compiler accepts such a type; the partial-vs-partial arm
+then looks only at the FIRST field of that name, so such a type is not even assignable to itself once
+the two sides sit below different enclosing types) -/
+def Table.partsDistinctB (T : Table) : Bool :=
+  T.types.all (fun ty => match ty with
+    | .part _ fs => decide ((fs.map (·.1)).Nodup)
+    | _ => true)
+
+def PartsDistinct (T : Table) : Prop := T.partsDistinctB = true
+
 def Ordered (T : Table) : Prop := T.orderedB = true
 def FO (T : Table) (t : Nat) : Prop := ∃ n, foB T n t = true
 def Closed (T : Table) (t : Nat) : Prop := ∃ n, closedB T n [] t = true
